@@ -18,6 +18,7 @@ pub fn dispatch(id: &str, opts: &mut Opts) -> i32 {
         "C05" => run_prop(&c05::C05, opts),
         "C06" => run_prop(&c06::C06, opts),
         "C07" => run_prop(&c07::C07, opts),
+        "C13" => run_prop(&hostile::C13, opts),
         "C17" => run_prop(&c17::C17, opts),
         _ => {
             eprintln!("unknown property id {id}");
